@@ -22,7 +22,7 @@ class _PartitionnedDistinguisherBaseMixin(DistinguisherMixin):
                 raise ValueError('min value for intermediate data is lower than 0, you need to provide partitions explicitly at init.')
             ls = [0, 9, 64, 256]
             for r in ls:
-                if maxdata <= r:
+                if maxdata < r:
                     break
             self.partitions = _np.arange(r, dtype='int32')
         self._trace_length = traces.shape[1]
